@@ -48,6 +48,12 @@ def run(chk):
     # sentence reuse, text formats or predictor serialisation do not concern "a trained model is usable"
     with chk.only(rules={"R18.2", "R06.3", "R15.3"}, keys=lambda k: not k.startswith("R18.2:STRPOS:parse") and "R18.2:inventory" not in k):
         _c18.run(chk)
+    # the predictor's placement arithmetic (and the fixed-length fast path, which has no guard for a negative start) assumes the
+    # vector lengths the trainer's arms produce: a record with another length is accepted by Predictor::new and panics in predict
+    # (vector size forms R09.2 and plain records R09.5, shared with C09)
+    from . import c09 as _c09r
+    with chk.only(rules={"R09.2", "R09.5"}):
+        _c09r.run_trainer_shapes(chk, w)
     # "can be serialised and re-read": the model file codec (shared with C07)
     from . import c07 as _c07
     with chk.only(rules={"R07.1", "R07.2", "R07.3", "R07.7"}):
@@ -98,7 +104,7 @@ def run(chk):
             chk.ob("R11.1", "%s:%s" % (owner.replace("vaporetto::", ""), lookup), exc is not None,
                    "%s unwraps/indexes the result of the data-dependent lookup `%s` without a guard: for a corpus in which the looked-up item is absent training panics instead of returning an error"
                    % (bd.fn, lookup) if exc is None else "confirmed exception: " + exc, site=C.site(bd, bb), sample={"fn": bd.fn, "lookup": lookup, "exception": exc})
-    chk.floor("R11.1", "lookup unwrap sites", n_sites, 3)
+    chk.floor("R11.1", "lookup unwrap sites", n_sites, 1)
     chk.floor("R11.1", "trainer functions scanned", n_fn, 30)
 
     # R11.2
